@@ -370,13 +370,26 @@ int main() {
         if (s3 != s) std::cout << " CLONE-DIFF " << s3;
         {
           // getCxxFormula(m): the variables renamed by `m`, nothing else changed
+          // (checked when every variable is a plain identifier, optionally indexed: name or name[digits])
           std::map<std::string, std::string> sub;
           auto k = 0;
+          bool plain = true;
           for (const auto& n : ev.getVariablesNames()) {
+            std::string::size_type q = 0;
+            if (n.empty() || !(std::isalpha(static_cast<unsigned char>(n[0])) || n[0] == '_')) plain = false;
+            while (q < n.size() && (std::isalnum(static_cast<unsigned char>(n[q])) || n[q] == '_')) ++q;
+            if (q < n.size()) {
+              if (n[q] != '[' || n.back() != ']' || q + 2 > n.size() - 1) plain = false;
+              for (auto u = q + 1; plain && u + 1 < n.size(); ++u) {
+                if (!std::isdigit(static_cast<unsigned char>(n[u]))) plain = false;
+              }
+            }
             if ((k++ % 2) == 0 || n.size() > 1) sub[n] = "s_" + std::to_string(k) + "_";
           }
-          const auto s4 = ev.getCxxFormula(sub);
-          if (s4 != substituteNames(s, sub)) std::cout << " SUBST-DIFF " << s4;
+          if (plain) {
+            const auto s4 = ev.getCxxFormula(sub);
+            if (s4 != substituteNames(s, sub)) std::cout << " SUBST-DIFF " << s4;
+          }
         }
         std::cout << std::endl;
       } else if (k == 'V') {
